@@ -159,6 +159,9 @@ func judgeMembership(o *ev.Outcome, spec Spec, region s2.Region, probes []Probe,
 				}
 				o.Err = fmt.Sprintf("%s (%d cells) does not contain %s: probe %d %v (leaf %v), region %s/%s", name, len(covs[name]), what, i, p, leafID(p), spec.Kind, spec.Family)
 				o.Finding = fmt.Sprintf("uncovered-%s-%s", name, spec.Kind)
+				if rectEdgeLngDefectAt(spec, p) {
+					o.Finding = findingRectEdgeLng
+				}
 				return tl, false
 			}
 			if cv == 1 {
@@ -559,6 +562,9 @@ func checkPredicates(c predCase) (o ev.Outcome) {
 			if bad {
 				o.Err = fmt.Sprintf("%s/%s: IntersectsCell(%v, level %d) is false but cell point %v (%s, uv slack %.3g) is in the region", c.R.Kind, c.R.Family, id, id.Level(), p, pts[i].src, pts[i].slack)
 				o.Finding = "intersectscell-" + c.R.Kind
+				if rectEdgeLngDefect(c.R, cell) {
+					o.Finding = findingRectEdgeLng
+				}
 				o.NonTrivial = true
 				return o
 			}
